@@ -261,6 +261,8 @@ def make_obj_class(versions=False):
                 # snapshot bytes): incompressible, 0 / 160 / 320 / 480 bytes - a newer snapshot is often SHORTER than an older one
                 import hashlib as _h, zlib as _z
                 k = 5 * (_z.crc32(str(cid).encode()) % 4)
+                if self._sim.cluster.cfg.get('pad') == 'parity':
+                    k = 15 if len(self.hist) % 2 else 0      # every other state is 480 bytes heavier
                 self.pad = b''.join(_h.sha256(('%s/%d' % (cid, i)).encode()).digest() for i in range(k))
             return len(self.hist)
 
